@@ -165,6 +165,17 @@ def run_names(report, n, rng):
             if tuple(got) != tuple(cps):
                 report_failure(report, f"from_filename_{fn[:40]}", dict(kind="property", function="codepoints.from_filename", filename=fn, expected=list(cps), impl_out=list(got)))
                 return
+    # the Gallina model of glyph_name (un-hashed names; None = replaced by a digest) against the code
+    gcases, gmeta = [], []
+    import re as _re
+
+    for cps in seqs:
+        nm = glyph_name(cps)
+        hashed = bool(_re.match(r"^(g_)?[A-Z2-7]{32}$", nm))
+        gcases.append("(" + listlit([f"{c}%N" for c in cps]) + ", " + optlit(None if hashed else nm, tlit) + ")")
+        gmeta.append(dict(function="glyph.glyph_name", codepoints=list(cps), impl_out=nm, hashed=hashed))
+        report.hist("glyph_name.kind", "hashed (too long)" if hashed else "spelled")
+    evaluate_corr(report, IMPORTS, "Corr.C10", "glyph_name", "gname_case", gcases, gmeta, "gname_agree", "gname_agree", shard=200)
     names = {}
     for cps in seqs:
         nm = glyph_name(cps)
@@ -434,7 +445,7 @@ def main(argv):
     if not st["proof_ok"] and not report.violations:
         report.violation("proof", dict(kind="proof", theorem="Props/C10.v", detail=report.notes.get("proof_failure")), found_input=False)
     report.open_obligations = [
-        "filename scanner == regex and glyph-name injectivity are checked on samples (with the g_ prefix collision as known finding F3), not yet as theorems",
+        "the file-name scanner (a regex) is checked on samples; glyph-name injectivity is a theorem for un-hashed names (the SHA-1/base32 digest of longer names is an oracle)",
         "TOML printing/parsing (toml library, str(float)/float()) is an external oracle: exercised for every field, not modelled",
     ]
     return report.finish()
